@@ -443,7 +443,9 @@ func c12Time(w *run.Worker) {
 	}
 	// datetime
 	formats := []string{"ANSIC", "UnixDate", "RubyDate", "RFC822", "RFC822Z", "RFC850", "RFC1123", "RFC1123Z", "RFC3339", "RFC3339Nano", "Kitchen", "Stamp", "StampMilli", "StampMicro", "StampNano", "Nope", "", "rfc3339"}
-	epochs := []any{int64(0), int64(1), int64(1600000000), int64(1600000000123), int64(-1), 1600000000.0, 1.6e12, 1638253518.5, 1638253518999.75, "1638253518.5", "1600000000", "1600000000123", "12abc", "", true, nil}
+	epochs := []any{int64(0), int64(1), int64(1600000000), int64(1600000000123), int64(-1), 1600000000.0, 1.6e12, 1638253518.5, 1638253518999.75, "1638253518.5", "1600000000", "1600000000123", "12abc", "", true, nil,
+		// seconds far from the present: a sentinel, the year 3000, the FILETIME epoch, the last second of the year 9999
+		int64(9999999999), int64(32503680000), int64(-11644473600), int64(253402300799)}
 	for _, f := range formats {
 		for _, prec := range []string{"s", "ms", "us", ""} {
 			for _, ep := range epochs {
@@ -525,6 +527,8 @@ func c12XMLSQL(w *run.Worker) {
 		"select * from t where id = 42", "SELECT a, b FROM t WHERE name = 'bob' AND x IN (1, 2, 3)", "insert into t values (1, 'a', 2.5)", "update t set a = 'x' where b = 7 -- comment",
 		"not sql at all", "", "select '", "select \"col\" from `t`", "/* c */ select 1", "select * from t where a = $1", "delete from t where a between 1 and 2",
 		"select 1; select 2", "sElEcT 1", "select * from t limit 10 offset 5", "call proc(1, 'x')", "select * from t where a like '%x%'", "   ", "select é from t where n = 'é'",
+		// digits inside identifiers are not literals
+		"select col1, col2 from t1 where md5 = 'abc' and utf8mb4 = 7", "insert into shard_07 (c1) values (1)",
 		int64(5), nil,
 	}
 	// two statements in one run: the result for the second must not depend on the first
